@@ -74,6 +74,11 @@ def cases(ctx):
         else:
             text = syntax.render(syntax.gen_program(rng, max_cmds=3, max_args=3), random.Random(rng.randrange(10 ** 9)), "wild")
             table = None
+        if rng.random() < 0.08:
+            t2 = _dup_argument(rng, text)
+            if t2:
+                yield {"kind": "text", "text": t2, "table": table}
+                continue
         yield {"kind": "text", "text": _edit(rng, text), "table": table}
     for special in ("A = C(P = " + "x" * 10000 + ")", "A = C(P = \"" + "y" * 10000 + "\")", "A = C(P = " + "[" * 6 + "1" + "]" * 6 + ")", "A = C(P = " + "[" * 40 + "1" + "]" * 40 + ")",
                     "", "   ", "\n\n", "#only a comment", "A", "A =", "A = C", "A = C(", "= C()", "A = C()()", "A = 1()", "1 = C()", "A = C(P = 1 2 3)", "A = EEMSRead(InFileName = \"da\\0ta.csv\", InFieldName = X)", "A = EEMSRead(InFileName = da\x00ta.csv, InFieldName = X)", "A = EEMSRead(InFileName = \"\", InFieldName = X)",
@@ -82,6 +87,8 @@ def cases(ctx):
                     "A = C(P = [a: [1]])", "A = C(P = [[a: b]])", "A = C(P = \"\\N{BULLET}\")", "A = C(P = '\\x4')", "A = C(P = \"\\u12\")", "A = C(P = \"\\777\")", "\ufeffA = C(P = 1)",
                     "A = C(P = 1)\x00", "A = C(P = \x00)", "A = EEMSRead(InFileName = 5, InFieldName = 6)", "A = EEMSRead(InFileName = [a], InFieldName = [b: c])",
                     "A = Sum(InFieldNames = A)", "A = Sum(InFieldNames = [A])", "A = Copy(InFieldName = A, Metadata = 5)", "A = Copy(InFieldName = B, Metadata = [1, 2])",
+                    "A = Copy(InFieldName = B, InFieldName = B)", 'A = EEMSRead(InFileName = "x.csv", InFileName = "y.csv", InFieldName = X)', "A = C(P = 1, P = 2)\nB = C(Q = 1)", "A = C(P = 1)\nB = C(Q = 1, Q = [2])",
+                    "READ(InFileName = x, InFileName = y, InFieldName = A)", "A = Sum(InFieldNames = [B], InFieldNames = [C], Metadata = [a: b], Metadata = [a: c])",
                     "READ(InFileName = x)", "READ()", "CVTTOFUZZY(InFieldName = [a])", "SUM(NewFieldName = [a, b], InFieldNames = [a])"):
         if ctx.shard == 0:
             yield {"kind": "text", "text": special, "table": None}
@@ -114,6 +121,16 @@ def cases(ctx):
     for i in range(ctx.n(300, 15000)):
         yield {"kind": "runtime", "fault": rng.choice(["shape", "shape", "weights", "empty", "k-too-big", "bad-direction", "bad-truest", "dup-raw", "len-mismatch", "equal-thresholds"]),
                "rseed": rng.randrange(10 ** 9)}
+
+
+def _dup_argument(rng, text):
+    """Repeats one 'name = value' argument of one command (the last command included)."""
+    import re
+    ms = list(re.finditer(r"([A-Za-z_][A-Za-z0-9_]*)\s*=\s*([A-Za-z0-9_.\"']+)\s*(?=[,)])", text))
+    if not ms:
+        return None
+    m = rng.choice(ms[-3:] if rng.random() < 0.6 else ms)
+    return text[:m.end()] + ", " + m.group(0) + text[m.end():]
 
 
 def _edit(rng, text):
